@@ -14,7 +14,13 @@ def main():
     warnings.simplefilter('ignore')
     import pydl  # the real package (editable install / PYTHONPATH -> /repo), no loader installed
     assert 'pathsym.loader' not in sys.modules or True
-    ok = mod.replay(rec)
+    try:
+        ok = mod.replay(rec)
+    except Exception as e:
+        # the stored counterexample claims an exception escaping from pydl: reproduced iff it escapes again
+        import traceback
+        traceback.print_exc()
+        ok = rec.get('label', '').startswith('exception:') and type(e).__name__ in rec['label']
     print('replay %s %s: %s' % (pid, path, 'REPRODUCED' if ok else 'not reproduced'))
     sys.exit(10 if ok else 0)
 
